@@ -1,7 +1,8 @@
 (** C05 — noise-free data from admissible force constants are recovered exactly (index/layout part). *)
-From Coq Require Import ZArith List QArith.
-From SymfcV Require Import Reshape SolverModel IPS.
-From SymfcG Require Import ReshapeGen SolverStruct.
+From Coq Require Import ZArith List QArith Reals String.
+From SymfcV Require Import Reshape SolverModel IPS DesignPre Design.
+From SymfcG Require Import ReshapeGen SolverStruct DesignGen.
+Import ListNotations.
 Open Scope Z_scope.
 
 (** The regenerated reshape chains place the compact compression-matrix entry of element
@@ -37,6 +38,60 @@ Proof. exact taylor_consts_ok. Qed.
 Theorem c05_structure :
   compact_matrix_is_fresh_and_scaled_by_inv_sqrt_nlp = true /\ recover_fcs_is_comp_times_basis_times_coefs = true /\
   inplace_scaling_only_on_fresh_compact_matrices_and_restored = true /\ compress_is_cpt_times_crpt = true.
+Proof. repeat split; reflexivity. Qed.
+
+(** The design blocks as the source builds them (regenerated: gen/DesignGen.v): which displacement product every
+    solver multiplies with which reshaped, row-gathered compact matrix. *)
+Theorem c05_design_in_force :
+  design_kinds =
+  [((2, "O2"%string), DLinear); ((3, "O3"%string), DKron2); ((4, "O4"%string), DKron3);
+   ((2, "O2O3"%string), DLinear); ((3, "O2O3"%string), DKron2);
+   ((3, "O3O4"%string), DKron2); ((4, "O3O4"%string), DKron3From2);
+   ((2, "O2O3O4"%string), DLinear); ((3, "O2O3O4"%string), DKron2); ((4, "O2O3O4"%string), DKron3From2)].
+Proof. reflexivity. Qed.
+
+(** "Row of X = Taylor force": entry ((3 i + a) nx + x) of  D_n(u) @ reshape_n(compact[decompr_idx])  is the
+    contraction of column x of the compact matrix -- row addressed through atomic_decompr_idx, first atom
+    begin_i + i, first Cartesian index a -- with n-1 copies of the displacement vector u.  For every N, nx, u, every
+    entry list of the compact matrix, every index table and batch start. *)
+Theorem c05_design_row_O2 N nx (u : Z -> R) aidx begin_i Mc (nrows : nat) i a x :
+  0 < N -> Forall (fun e => 0 <= ecol e < nx) Mc -> 0 <= x < nx -> 0 <= a < 3 ->
+  dense_times_coo u (reshape_entries (reshape_O2 N nx) (gather nrows (gather_row 9 N aidx begin_i) Mc)) ((3 * i + a) * nx + x)
+  = rsumf (fun r => if (d2_i N r =? i) && (d2_a r =? a) then
+             (u (3 * d2_j N r + d2_b r)%Z *
+              rsumf (fun e => if (erow e =? gather_row 9 N aidx begin_i r) && (ecol e =? x) then eval e else 0%R) Mc)%R
+           else 0%R) (zrange nrows).
+Proof. intros HN Hc. exact (taylor_row_O2 N nx u aidx begin_i Mc HN Hc nrows i a x). Qed.
+Print Assumptions c05_design_row_O2.
+
+Theorem c05_design_row_O3 N nx (u : Z -> R) aidx begin_i Mc (nrows : nat) i a x :
+  0 < N -> Forall (fun e => 0 <= ecol e < nx) Mc -> 0 <= x < nx -> 0 <= a < 3 ->
+  dense_times_coo (disps_2nd (3 * N) u) (reshape_entries (reshape_O3 N nx) (gather nrows (gather_row 27 (N * N) aidx begin_i) Mc)) ((3 * i + a) * nx + x)
+  = rsumf (fun r => if (d3_i N r =? i) && (d3_a r =? a) then
+             (u (3 * d3_j N r + d3_b r)%Z * u (3 * d3_k N r + d3_c r)%Z *
+              rsumf (fun e => if (erow e =? gather_row 27 (N * N) aidx begin_i r) && (ecol e =? x) then eval e else 0%R) Mc)%R
+           else 0%R) (zrange nrows).
+Proof. intros HN Hc. exact (taylor_row_O3 N nx u aidx begin_i Mc HN Hc nrows i a x). Qed.
+Print Assumptions c05_design_row_O3.
+
+Theorem c05_design_row_O4 N nx (u : Z -> R) aidx begin_i Mc (nrows : nat) i a x :
+  0 < N -> Forall (fun e => 0 <= ecol e < nx) Mc -> 0 <= x < nx -> 0 <= a < 3 ->
+  dense_times_coo (disps_3rd (3 * N) u) (reshape_entries (reshape_O4 N nx) (gather nrows (gather_row 81 (N * N * N) aidx begin_i) Mc)) ((3 * i + a) * nx + x)
+  = rsumf (fun r => if (d4_i N r =? i) && (d4_a r =? a) then
+             (u (3 * d4_j N r + d4_b r)%Z * u (3 * d4_k N r + d4_c r)%Z * u (3 * d4_l N r + d4_d r)%Z *
+              rsumf (fun e => if (erow e =? gather_row 81 (N * N * N) aidx begin_i r) && (ecol e =? x) then eval e else 0%R) Mc)%R
+           else 0%R) (zrange nrows).
+Proof. intros HN Hc. exact (taylor_row_O4 N nx u aidx begin_i Mc HN Hc nrows i a x). Qed.
+Print Assumptions c05_design_row_O4.
+
+(** the (3,4) and (2,3,4) solvers build the third-order products from the second-order ones: same numbers *)
+Theorem c05_kron_variants_agree N3 (u : Z -> R) r : 0 < N3 -> disps_3rd_from_2nd N3 (disps_2nd N3 u) u r = disps_3rd N3 u r.
+Proof. exact (disps_3rd_from_2nd_eq N3 u r). Qed.
+Print Assumptions c05_kron_variants_agree.
+
+(** the flat row index of the gathered matrix decodes to (first atom, other atoms, Cartesian digits): non-vacuity *)
+Example c05_decode3_ex : d3_i 4 ((((2 * 4 + 1) * 4 + 3) * 27) + (1 * 9 + 2 * 3 + 0)) = 2 /\ d3_j 4 ((((2 * 4 + 1) * 4 + 3) * 27) + 15) = 1
+  /\ d3_k 4 ((((2 * 4 + 1) * 4 + 3) * 27) + 15) = 3 /\ d3_a 1068 = 1 /\ d3_b 1068 = 2 /\ d3_c 1068 = 0.
 Proof. repeat split; reflexivity. Qed.
 
 (** If the design map is injective and the data are exactly X c*, the normal equations have c* as
